@@ -93,6 +93,125 @@ def lam(arg, f):
     return eval(f"lambda {arg}: _f({arg})", {"_f": f})
 
 
+def graph_of(J0, data_names):
+    """the model graph of an unconditioned JointDistribution: (name, dim, conditioning variables) per density, in
+    density order, and the names of the observed variables — the input of the driver op `tg`"""
+    return ([(d.name, int(d.dim), list(d.get_conditioning_variables())) for d in J0._densities], list(data_names))
+
+
+def tg_line(graph):
+    fs, data = graph
+    return "tg {} {}".format("|".join(f"{n}:{dim}:{'+'.join(cv) if cv else '.'}" for n, dim, cv in fs), ",".join(data) if data else ".")
+
+
+def describe(t):
+    """structure of an object handed to a block sampler, in the format of the driver op `tg`"""
+    from cuqi.distribution import JointDistribution, Posterior, Distribution
+    from cuqi.distribution._joint_distribution import MultipleLikelihoodPosterior, _StackedJointDistribution
+    from cuqi.likelihood import Likelihood
+    from cuqi.density import EvaluatedDensity
+    nm = lambda l: "+".join(l) if l else "."
+
+    def dd(d):
+        if isinstance(d, Likelihood):
+            return f"L:{d.name}:{nm(list(d.get_parameter_names()))}"
+        if isinstance(d, EvaluatedDensity):
+            return f"E:{d.name}"
+        if isinstance(d, Distribution):
+            return f"D:{d.name}:{nm(list(d.get_conditioning_variables()))}"
+        return "?:" + type(d).__name__
+    try:
+        if isinstance(t, MultipleLikelihoodPosterior):
+            return "MultipleLikelihoodPosterior[" + ";".join(dd(d) for d in t._densities) + "]"
+        if isinstance(t, _StackedJointDistribution):
+            return "_StackedJointDistribution[" + ";".join(dd(d) for d in t._densities) + "]"
+        if isinstance(t, JointDistribution):
+            return "JointDistribution[" + ";".join(dd(d) for d in t._densities) + "]"
+        if isinstance(t, Posterior):
+            return f"Posterior[{dd(t.likelihood)};{dd(t.prior)}]"
+        if isinstance(t, Distribution):
+            return f"Distribution[{dd(t)}]"
+        if isinstance(t, Likelihood):
+            return f"Likelihood[{dd(t)}]"
+        if isinstance(t, EvaluatedDensity):
+            return f"EvaluatedDensity[{dd(t)}]"
+    except Exception as e:
+        return f"?raises {type(e).__name__}"
+    return "?" + type(t).__name__
+
+
+def kind_of(o):
+    """type / shape of a python object holding a block value, in the format of the driver op `sh`"""
+    if isinstance(o, np.ndarray):
+        return "a" + "x".join(str(int(k)) for k in o.shape)
+    if isinstance(o, list):
+        return f"l{len(o)}" if all(isinstance(t, (int, float, np.integer, np.floating)) for t in o) else None
+    if isinstance(o, (int, float, np.integer, np.floating, bool, np.bool_)):
+        return "s"
+    return None
+
+
+def compare_kinds(ctx, K, desc, out, par_names, stored_kinds, gs_raised, gs_shapes, stats):
+    """tie of Model/C09_shape.lean.  An implementation that stores a 1-D array where the model (faithful to the write-back
+    branch) keeps the user's python scalar / list, and whose get_samples() therefore succeeds where the model predicts
+    ValueError, is a repair of known finding 3: counted (`stored_more_uniform_than_model`), not reported."""
+    stats["shape_ties"] = stats.get("shape_ties", 0) + 1
+    st_s, _, gs_s = out.partition("|")
+    m_st = [] if st_s == "_" else [row.split(",") for row in st_s.split(";")]
+    i_st = [[str(d_[n]) for n in par_names] for d_ in stored_kinds]
+    repaired = False
+    if len(m_st) != len(i_st):
+        ctx.disagree(f"{K}:stored:shape", desc, len(m_st), len(i_st), "number of stored tuples differs"); return
+    for j, (mr, ir) in enumerate(zip(m_st, i_st)):
+        for n, a, b in zip(par_names, mr, ir):
+            if a == b:
+                continue
+            if (a == "s" and b == "a1") or (a.startswith("l") and b == "a" + a[1:]):
+                repaired = True; continue
+            ctx.disagree(f"{K}:stored:shape", desc, {"sweep": j, n: a}, {"sweep": j, n: b},
+                         "type / shape of a stored object (write-back: reshape(-1) of arrays, the object itself otherwise) differs"); return
+    m_gs = dict(it.split("=") for it in gs_s.split(",")) if gs_s else {}
+    for v_ in m_gs.values():
+        hk_ = "ValueError" if v_ == "ValueError" else "ok:" + str(v_.count("x") + 1) + "-d"
+        stats["get_samples_outcomes"][hk_] = stats["get_samples_outcomes"].get(hk_, 0) + 1
+    if repaired:
+        stats["stored_more_uniform_than_model"] = stats.get("stored_more_uniform_than_model", 0) + 1
+        if gs_raised:
+            ctx.disagree(f"{K}:stored:shape", desc, m_gs, "raises", "get_samples() raises although every stored object is an array")
+        return
+    m_raises = any(v_ == "ValueError" for v_ in m_gs.values())
+    if m_raises != gs_raised:
+        ctx.disagree(f"{K}:stored:shape", desc, m_gs, "raises" if gs_raised else gs_shapes, "whether get_samples() can assemble the stored objects differs"); return
+    if not gs_raised and m_gs != gs_shapes:
+        ctx.disagree(f"{K}:stored:shape", desc, m_gs, gs_shapes, "shape of the arrays returned by get_samples() differs")
+
+
+def compare_structure(ctx, K, desc, out, par_names, target, seen, stats, had_target_failure):
+    """tie of Model/C09_target.lean: par_names, the sampler's own copy of the joint, and the object handed to every block
+    (`seen`: block -> set of structures observed on the implementation) against the model's"""
+    def dis(aspect, model, impl, what):
+        # a structural difference that comes with a failing input of the target clause is reported under that key
+        ctx.disagree(f"{K}:target" + ("" if had_target_failure else ":" + aspect), desc, model, impl, what)
+    f = out.split("|")
+    if f[0] != "ok" or len(f) < 3:
+        dis("structure", out[:120], "constructed: " + ",".join(par_names), "the model refuses a joint target the constructor accepts"); return
+    stats["structure_ties"] = stats.get("structure_ties", 0) + 1
+    m_names = [] if f[1] == "." else f[1].split(",")
+    if m_names != list(par_names):
+        dis("par_names", m_names, list(par_names), "par_names differ (get_parameter_names of the sampler's copy of the joint)"); return
+    if f[2] != describe(target):
+        dis("structure", f[2], describe(target), "the sampler's own copy of the joint (self.target = target()) differs in structure"); return
+    for item in f[3:]:
+        n, _, d = item.partition("=")
+        kind = d.split("[")[0]
+        for got in seen.get(n, ()):
+            stats["handed_kinds"][kind] = stats["handed_kinds"].get(kind, 0) + 1
+            if got != d:
+                dis("structure", {n: d}, {n: got}, "the object handed to a block sampler differs in structure (class / densities / free variables) from the model's reduction"); return
+    if set(seen) - {it.partition("=")[0] for it in f[3:]}:
+        dis("structure", f[3:], sorted(seen), "blocks differ")
+
+
 def build_joint(cuqi, rs, tmpl):
     """returns (post, roles) — roles: name -> (role, dim); post has >= 2 free parameters"""
     from cuqi.distribution import Gaussian, Gamma, JointDistribution, GMRF
@@ -121,7 +240,9 @@ def build_joint(cuqi, rs, tmpl):
             scales[R(k)] = sd; locs[R(k)] = loc; leafof[R(k)] = R(leaf)
         roles.update(meta); roles["__scale__"] = scales; roles["__loc__"] = locs; roles["__leafof__"] = leafof
         dens = [dens[i] for i in rs.permutation(len(dens))]
-        return JointDistribution(*dens), roles
+        J0 = JointDistribution(*dens)
+        roles["__graph__"] = graph_of(J0, [])
+        return J0, roles
     if tmpl == "G":       # hierarchies a -> b -> x whose consecutive members depend on each other directly
         if rs.rand() < 0.5:   # two hyper-parameters, the rate of the second is the first
             a = gam("a")
@@ -139,7 +260,9 @@ def build_joint(cuqi, rs, tmpl):
         y = Gaussian(A @ x, float(rs.choice([0.5, 1.0])), name=R("y"))
         free = [[a, b, x], [b, a, x], [x, a, b], [x, b, a], [a, x, b], [b, x, a]][int(rs.randint(6))]
         roles.update(meta)
-        return JointDistribution(*(free + [y]))(**{R("y"): data}), roles
+        J0 = JointDistribution(*(free + [y]))
+        roles["__graph__"] = graph_of(J0, [R("y")])
+        return J0(**{R("y"): data}), roles
     if tmpl == "H":       # hyper-parameter in the prior and one in the likelihood
         d, l = gam("d"), gam("l")
         gm = rs.rand() < 0.3
@@ -183,7 +306,9 @@ def build_joint(cuqi, rs, tmpl):
     order = list(rs.permutation(len(dens)))
     dens = [dens[i] for i in order]
     roles.update(meta)
-    post = JointDistribution(*dens)(**{R("y"): data})
+    J0 = JointDistribution(*dens)
+    roles["__graph__"] = graph_of(J0, [R("y")])
+    post = J0(**{R("y"): data})
     return post, roles
 
 
@@ -488,7 +613,15 @@ def run_hybrid(ctx, cuqi, idx, rs, thorough, stats):
         # at Nb = 10, 20; a later warm-up phase after sampling
         calls = [("warmup", int(rs.choice([9, 10, 11, 19, 20, 21])), None), ("sample", 1, None), ("warmup", int(rs.choice([1, 2, 10])), None)]
     how = {"ctor": str(rs.choice(["positional", "keyword"])), "calls": str(rs.choice(["positional", "keyword"])),
-           "tune_freq": float(rs.choice([0.1, 0.5, 1.0]))}
+           "tune_freq": float(rs.choice([0.1, 0.5, 1.0, 0.25, 0.3, 0.6, 0.7, 0.34, 0.0, 2.0]))}
+    if idx % 20 == 7 and rs.rand() < 0.7:
+        # the binary64 product tune_freq*Nb is an integer although the exact product of the float lies just below it
+        tf_, nb_ = [(0.3, 10), (0.7, 10), (0.15, 20), (0.6, 10), (0.35, 20), (0.3, 20)][int(rs.randint(6))]
+        how["calls"], how["tune_freq"] = "keyword", tf_
+        calls = [("warmup", nb_, None), ("sample", 1, None), ("warmup", int(rs.choice([1, 2, 5])), None)]
+    elif idx % 9 == 4:
+        how["calls"], how["tune_freq"] = "keyword", 0.6
+        calls = [("warmup", 5, None), ("sample", 1, None)]          # int(0.6*5) == 3, the exact product is 2.9999…
     classes = {n: (type(strategy[n]).__name__ if n in strategy else None) for n in names}
     uinit = {n: (None if (n not in strategy or strategy[n].initial_point is None) else vec(strategy[n].initial_point).copy()) for n in names}
     dinit = {n: (vec(strategy[n]._get_default_initial_point(roles[n][1])) if n in strategy else np.ones(roles[n][1])) for n in names}
@@ -583,6 +716,9 @@ def run_hybrid(ctx, cuqi, idx, rs, thorough, stats):
     draws = []
     snapshots = []
     state = {"block": None, "count": {}, "order": [], "fails": set()}
+    seen_struct = {n: {describe(G.samplers[n].target)} for n in par_names}     # the targets set by `_set_targets` in the constructor
+    init_kinds = {n: kind_of(G.current_samples[n]) for n in par_names}
+    pts_kinds, stored_kinds = [], []
 
     def fail(aspect, cls, demanded, got, what, extra=None):
         key = f"{K}:{aspect}" + (f":{cls}" if cls else "")
@@ -616,6 +752,7 @@ def run_hybrid(ctx, cuqi, idx, rs, thorough, stats):
                 state["order"].append(n)
                 attr, cval = cache_read(s)
                 events.append(("V", n, oth, before, (attr, cval, tgt), len(s._acc)))
+                seen_struct.setdefault(n, set()).add(describe(tgt))
                 # ORACLE: starts from the block's current value
                 if not np.array_equal(before, cur[n]):
                     fail("start", cls, cur[n].tolist(), before.tolist(), "the block sampler does not start from the block's current value")
@@ -676,6 +813,8 @@ def run_hybrid(ctx, cuqi, idx, rs, thorough, stats):
             if state["count"].get(n, 0) != cfg[n]:
                 fail("steps", None, {n: cfg[n]}, {n: state["count"].get(n, 0)}, "a block sampler is not advanced by the configured number of transitions")
         orig_store()
+        pts_kinds.append({n: kind_of(G.samplers[n].current_point) for n in par_names})
+        stored_kinds.append({n: kind_of(G.samples[n][-1]) for n in par_names})
         snap = {n: vec(G.current_samples[n]).copy() for n in par_names}
         last = {n: vec(G.samples[n][-1]).copy() for n in par_names}
         events.append(("T", last))
@@ -688,9 +827,19 @@ def run_hybrid(ctx, cuqi, idx, rs, thorough, stats):
 
     orig_store = G._store_samples
     G._store_samples = store
+    tunes = []
+
+    def make_tune(s, orig):
+        def tune(*a, **kw):
+            skip_len = kw["skip_len"] if "skip_len" in kw else a[0]
+            update_count = kw["update_count"] if "update_count" in kw else a[1 if "skip_len" not in kw else 0]
+            tunes.append((len(snapshots), len(draws), smp_name[id(s)], int(skip_len), int(update_count)))
+            return orig(*a, **kw)
+        return tune
     for n in par_names:
         s = G.samplers[n]
         s.step = make_step(s, s.step)
+        s.tune = make_tune(s, s.tune)
     ran = True
     retained = []
     with CondRecorder(cuqi) as rec, seeded(ctx.seed * 1000003 + idx * 7919 + 1):
@@ -719,6 +868,17 @@ def run_hybrid(ctx, cuqi, idx, rs, thorough, stats):
         except Exception as e:
             ran = False
             err = f"{type(e).__name__}: {str(e)[:100]}"
+    # ---- kinds (type / shape) of the stored objects and the assembly by get_samples(): Model/C09_shape.lean
+    sh_pend = []
+    if (ran or state.get("phase") == "get_samples") and all(v is not None for d_ in [init_kinds] + pts_kinds for v in d_.values()):
+        gs_raised = not ran
+        gs_shapes = None if gs_raised else {n: "ok:" + "x".join(str(int(k)) for k in np.asarray(smp[n].samples).shape) for n in par_names}
+        sh_line = "sh {} {} {}".format(",".join(par_names), ",".join(init_kinds[n] for n in par_names),
+                                       ";".join(",".join(d_[n] for n in par_names) for d_ in pts_kinds) if pts_kinds else "_")
+
+        def after_sh(out, gs_raised=gs_raised, gs_shapes=gs_shapes):
+            compare_kinds(ctx, K, desc, out, par_names, stored_kinds, gs_raised, gs_shapes, stats)
+        sh_pend = [(sh_line, after_sh)]
     if not ran and state.get("phase") == "get_samples":
         # the sweeps ran; only the assembly of the stored tuples failed
         nonarr = sorted({type(v).__name__ for n_ in par_names for v in G.samples[n_] if not isinstance(v, np.ndarray)})
@@ -726,7 +886,7 @@ def run_hybrid(ctx, cuqi, idx, rs, thorough, stats):
         ctx.fail(f"{K}:stored:get_samples-raises" + (":scalar-initial-point" if nonarr else ""), desc,
                  "the stored tuples as Samples", "raises " + err + f" (stored non-array entries: {nonarr})",
                  "get_samples() cannot assemble the stored tuples")
-        return None
+        return sh_pend
     # ORACLE: the user's initial_point objects are never written to
     bad = modified_user_objects(user_snaps)
     if odd_mode:
@@ -771,12 +931,24 @@ def run_hybrid(ctx, cuqi, idx, rs, thorough, stats):
             fail("stored", None, f"{tot} post-sweep tuples", f"shape {arr.shape}", "get_samples() is not the sequence of post-sweep tuples")
             break
     # ---- model
-    line = hg_line(par_names, flags, ",".join(str(c_[1]) + ("" if c_[2] is None else "@" + ":".join(str(int(c_[2][1][n_])) for n_ in par_names)) for c_ in calls) if calls else "_",
+    tf_used = 0.1 if how["calls"] == "positional" else how["tune_freq"]
+    state["tunes"] = tunes
+    stats["tune_calls"] = stats.get("tune_calls", 0) + len(tunes)
+    for c_ in calls:
+        if c_[0] == "warmup":
+            hk_ = f"{tf_used}x{c_[1]}->{max(int(tf_used * c_[1]), 1)}"
+            stats["tune_intervals"][hk_] = stats["tune_intervals"].get(hk_, 0) + 1
+    line = hg_line(par_names, flags, ",".join((f"W{q(tf_used)}!" if c_[0] == "warmup" else "") + str(c_[1]) + ("" if c_[2] is None else "@" + ":".join(str(int(c_[2][1][n_])) for n_ in par_names)) for c_ in calls) if calls else "_",
                    ";".join(f"{1 if m else 0}|{qv(a)}" for m, a in draws) if draws else "_")
     state["init"] = init
     state["scales"] = scales
     state["ftol"] = ftol
     pend = [(line, (lambda out: compare_hybrid(ctx, K, desc, out, events, draws, snapshots, par_names, post, G, stats, state)))]
+    pend.extend(sh_pend)
+    for n in par_names:
+        seen_struct[n].add(describe(G.samplers[n].target))
+    pend.append((tg_line(roles["__graph__"]),
+                 (lambda out: compare_structure(ctx, K, desc, out, par_names, G.target, seen_struct, stats, f"{K}:target" in state["fails"]))))
     # ---- a second owner: another HybridGibbs built from sampler objects that have already served this one
     if rs.rand() < 0.25:
         which = "all" if rs.rand() < 0.5 else par_names[int(rs.randint(len(par_names)))]
@@ -828,9 +1000,18 @@ def compare_hybrid(ctx, K, desc, out, events, draws, snapshots, par_names, post,
     if out.startswith("err") or out == "bad-op":
         dis("construct", None, out, "accepted", "model refuses a configuration the code runs")
         return
-    if out.count(" # ") != 3:
+    if out.count(" # ") != 4:
         dis("construct", None, out[:100], "ran", "unexpected model output"); return
-    ev_s, pos_s, stored_s, init_s = [t.strip() for t in out.split(" # ")]
+    ev_s, pos_s, stored_s, init_s, tune_s = [t.strip() for t in out.split(" # ")]
+    # tuning calls of the warm-up phases: when (tuples stored, transitions made), which sampler, skip_len, update_count;
+    # the order of the samplers inside one round is immaterial and canonicalised away
+    m_t = sorted(tuple(t.split(":")) for t in tune_s.split(" ")) if tune_s != "_" else []
+    i_t = sorted((str(a), str(b), n_, str(c), str(d)) for a, b, n_, c, d in state.get("tunes", []))
+    if m_t != i_t:
+        k_ = next((i for i, (x, y) in enumerate(zip(m_t, i_t)) if x != y), min(len(m_t), len(i_t)))
+        dis("tune", None, {"calls": len(m_t), "first_difference": m_t[k_:k_ + 2]}, {"calls": len(i_t), "first_difference": i_t[k_:k_ + 2]},
+            "tuning calls of the warm-up (when / sampler / skip_len / update_count) differ from the model's schedule")
+        return
     init_i = fdict(par_names, state["init"])
     if init_s != init_i:
         dis("initial", None, init_s, init_i, "initial points differ"); return
@@ -1000,6 +1181,7 @@ def run_legacy(ctx, cuqi, idx, rs, thorough, stats):
     events, draws = [], []
     state = {"order": [], "fails": set()}
     cur = {}
+    seen_struct = {}
 
     def fail(aspect, demanded, got, what, extra=None):
         key = f"{K}:{aspect}"
@@ -1046,6 +1228,7 @@ def run_legacy(ctx, cuqi, idx, rs, thorough, stats):
                              {"block": n, "probe_from": x0.tolist()})
                 except Exception:
                     stats["probe_errors"] = stats.get("probe_errors", 0) + 1
+            seen_struct.setdefault(n, set()).add(describe(self.target))
             out = self.inner.step(x)
             res = vec(out).copy()
             events.append(("S", n, oth, x0, res, self.target))
@@ -1087,6 +1270,9 @@ def run_legacy(ctx, cuqi, idx, rs, thorough, stats):
         if state["order"] != want_order:
             fail("steps", want_order, list(state["order"]), "blocks are not advanced once each in parameter order")
         state["order"] = []
+        if samples is getattr(G, "samples", None):
+            for n in par_names:
+                ar_ops[n].append(f"S{int(i)}:{qv(vec(current_samples[n]))}")
         orig_store(samples, current_samples, i)
         warm = samples is getattr(G, "samples_warmup", None)
         col = {n: vec(samples[n][:, i]).copy() for n in par_names}
@@ -1103,8 +1289,28 @@ def run_legacy(ctx, cuqi, idx, rs, thorough, stats):
     first_init = None
     orig_init = G._get_initial_points
 
+    ar_ops = {n: [] for n in par_names}
+    ar_last = {n: [] for n in par_names}
+    orig_alloc = G._allocate_samples
+
+    def alloc(Ns_):
+        for n in par_names:
+            ar_ops[n].append(f"A{int(Ns_)}")
+        return orig_alloc(Ns_)
+    G._allocate_samples = alloc
+
     def get_init():
-        pts = orig_init()
+        had = hasattr(G, "samples")
+        for n in par_names:
+            ar_ops[n].append("L")
+        try:
+            pts = orig_init()
+        except IndexError:
+            for n in par_names:
+                ar_last[n].append("IndexError")
+            raise
+        for n in par_names:
+            ar_last[n].append(qv(vec(pts[n])) if had else "absent")
         new = {n: vec(pts[n]).copy() for n in par_names}
         # ORACLE: a later call continues from the last stored values
         if stored_log:
@@ -1244,7 +1450,325 @@ def run_legacy(ctx, cuqi, idx, rs, thorough, stats):
             dis("stored", sam_s[:200], isam[:200], "final sample arrays differ")
         elif warm_s != iwarm:
             dis("stored", warm_s[:200], iwarm[:200], "final warm-up arrays differ")
-    return line, compare_legacy
+    # ---- one block's sample array as a concrete (dim, width) array: Model/C09_array.lean (driver op `ar`)
+    ar_pend = []
+    for n in par_names:
+        arr_ = getattr(G, "samples", {}).get(n) if hasattr(G, "samples") else None
+        fin = "absent" if arr_ is None else f"{arr_.shape[0]}x{arr_.shape[1]}:" + ";".join(qv(arr_[r_, :]) if arr_.shape[1] else "_" for r_ in range(arr_.shape[0]))
+        want_ = ";".join(ar_last[n]) + "|" + fin
+
+        def after_ar(out, n=n, want_=want_):
+            stats["array_ties"] = stats.get("array_ties", 0) + 1
+            if out != want_:
+                # a difference that comes with a failing input of the stored-clause is reported under that key
+                ctx.disagree(f"{K}:stored" + ("" if f"{K}:stored" in state["fails"] else ":array"), dict(desc, block=n, ops=ar_ops[n][:40]), out[:300], want_[:300],
+                             "the block's sample array (allocation / continuation by hstack / column writes / last column) differs from the model's")
+        if ar_ops[n]:
+            ar_pend.append((f"ar {dims[n]} " + ";".join(ar_ops[n]), after_ar))
+    return ar_pend + [(line, compare_legacy),
+            (tg_line(roles["__graph__"]),
+             (lambda out: compare_structure(ctx, K, desc, out, par_names, G.target, seen_struct, stats, f"{K}:target" in state["fails"])))]
+
+# ----------------------------------------------------------------------------- graph zoo (structure of the handed targets)
+def lamN(args, f):
+    """a lambda whose arguments are called `args` (cuqi reads the conditioning variables from the argument names)"""
+    return eval(f"lambda {', '.join(args)}: _f({', '.join(args)})", {"_f": f})
+
+
+def run_graph(ctx, cuqi, idx, rs, thorough, stats):
+    """random model graphs (DAGs of Gaussians with 0-2 parents through the mean, optionally a Gamma root through the
+    variance; any subset observed as long as two variables stay free; random density order): the constructors of both
+    samplers and one sweep, comparing par_names and the class / densities / free variables of every object handed to a
+    block sampler with the reduction computed by the model (Model/C09_target.lean on top of Model/C01.lean)"""
+    from cuqi.distribution import Gaussian, Gamma, JointDistribution
+    from cuqi.experimental.mcmc import HybridGibbs, MH
+    import cuqi.sampler as LS
+    pool = ["a", "b", "c", "u", "w", "z", "ab", "a0", "b_s", "zz", "c1"]
+    k = int(rs.randint(3, 7))
+    names = [pool[i] for i in rs.permutation(len(pool))[:k]]
+    dims = {n: int(rs.randint(1, 4)) for n in names}
+    use_gamma = rs.rand() < 0.4
+    dens, parents = [], {}
+    for i, n in enumerate(names):
+        if i == 0 and use_gamma:
+            dims[n] = 1; parents[n] = []
+            dens.append(Gamma(2.0, 1.0, name=n)); continue
+        cand = [m for m in names[:i] if not (use_gamma and m == names[0])]
+        pa = [cand[j] for j in rs.permutation(len(cand))[:int(rs.randint(0, 3))]] if cand else []
+        cov = 1.0
+        gp = []
+        if use_gamma and rs.rand() < 0.5:
+            gp = [names[0]]
+            cov = lamN(gp, lambda g: 1.0 / g)
+        mean = lamN(pa, (lambda *vs, d=dims[n]: sum(float(np.sum(v)) * (0.5 ** j) for j, v in enumerate(vs)) * np.ones(d))) if pa else np.zeros(dims[n])
+        parents[n] = pa + gp
+        dens.append(Gaussian(mean, cov, geometry=dims[n], name=n))
+    children = {n: [m for m in names if n in parents[m]] for n in names}
+    nobs = int(rs.randint(0, k - 1))
+    cand_obs = [n for n in names if not (use_gamma and n == names[0])]
+    obs = [cand_obs[j] for j in rs.permutation(len(cand_obs))[:min(nobs, k - 2, len(cand_obs))]]
+    dens = [dens[i] for i in rs.permutation(len(dens))]
+    with quiet():
+        J0 = JointDistribution(*dens)
+        post = J0(**{n: np.ones(dims[n]) for n in obs}) if obs else J0
+    graph = graph_of(J0, obs)
+    free = [d.name for d in J0._densities if d.name not in obs]
+    desc = {"iface": "both", "graph": [[n, dim, cv] for n, dim, cv in graph[0]], "observed": obs, "scenario": idx}
+    seenH, seenL = {}, {}
+    badH, badL = [], []
+    errH = errL = None
+    with seeded(ctx.seed * 1000003 + idx * 7919 + 3):
+        try:
+            with quiet():
+                G = HybridGibbs(post, {n: MH(scale=0.1, initial_point=(np.ones(dims[n]))) for n in free})
+                for n in G.par_names:
+                    seenH.setdefault(n, set()).add(describe(G.samplers[n].target))
+                cur0 = {n: vec(G.current_samples[n]).copy() for n in G.par_names}
+                G.sample(1)
+                cur1 = {n: vec(G.current_samples[n]).copy() for n in G.par_names}
+                for i_, n in enumerate(G.par_names):
+                    seenH[n].add(describe(G.samplers[n].target))
+                    # ORACLE: the target block n was advanced on is the joint conditioned on the new values of the blocks
+                    # before it and the old values of those after it
+                    oth_ = {m: (cur1[m] if j_ < i_ else cur0[m]) for j_, m in enumerate(G.par_names) if m != n}
+                    ok_, a_, b_ = same_conditional(G.samplers[n].target, post, oth_, n, cur1[n])
+                    stats["graph_target_probes"] = stats.get("graph_target_probes", 0) + 1
+                    if not ok_:
+                        badH.append(n)
+                        ctx.fail("HybridGibbs:target", dict(desc, at={"block": n, "others": {m: v.tolist() for m, v in oth_.items()}}), b_, a_,
+                                 "the target handed to the block sampler is not (up to a constant) the joint conditioned on the most recent values of the other blocks")
+            parH, tgtH = list(G.par_names), G.target
+        except Exception as e:
+            errH = f"{type(e).__name__}: {str(e)[:80]}"
+        try:
+            class Still:
+                def __init__(self, target):
+                    self.target = target
+                    pn = list(target.get_parameter_names())
+                    seenL.setdefault(pn[0] if len(pn) == 1 else "?" + ",".join(pn), set()).add(describe(target))
+                    if len(pn) == 1:
+                        oth_ = {m: np.ones(dims[m]) for m in free if m != pn[0]}
+                        ok_, a_, b_ = same_conditional(target, post, oth_, pn[0], np.ones(dims[pn[0]]))
+                        stats["graph_target_probes"] = stats.get("graph_target_probes", 0) + 1
+                        if not ok_:
+                            badL.append(pn[0])
+                            ctx.fail("Gibbs:target", dict(desc, at={"block": pn[0], "others": "ones"}), b_, a_,
+                                     "the target handed to the block sampler is not (up to a constant) the joint conditioned on the most recent values of the other blocks")
+
+                def step(self, x):
+                    return np.asarray(x, dtype=float)
+            with quiet():
+                GL = LS.Gibbs(post, {tuple(free): Still} if rs.rand() < 0.3 else {n: Still for n in free})
+                GL.sample(1)
+            parL, tgtL = list(GL.par_names), GL.target
+        except Exception as e:
+            errL = f"{type(e).__name__}: {str(e)[:80]}"
+    nch = {n: len([m for m in children[n]]) for n in free}
+    ctx.case("graph:" + str(len(free)) + "free:" + str(len(obs)) + "obs", desc)
+    stats["graph_children_hist"] = stats.get("graph_children_hist", {})
+    for n in free:
+        key = str(min(nch[n], 3))
+        stats["graph_children_hist"][key] = stats["graph_children_hist"].get(key, 0) + 1
+    for K, e_ in (("HybridGibbs", errH), ("Gibbs", errL)):
+        if e_ is not None:
+            ctx.fail(f"{K}:crash:construct", desc, "a sampler over all blocks of a well-formed joint", "raises " + e_,
+                     "constructing / sweeping once over a well-formed hierarchical joint raises")
+
+    def after(out):
+        if errH is None:
+            compare_structure(ctx, "HybridGibbs", desc, out, parH, tgtH, seenH, stats, bool(badH))
+        if errL is None:
+            compare_structure(ctx, "Gibbs", desc, out, parL, tgtL, seenL, stats, bool(badL))
+    return [(tg_line(graph), after)]
+
+
+# ----------------------------------------------------------------------------- kinds of the stored objects
+def run_shapes(ctx, cuqi, idx, rs, thorough, stats):
+    """HybridGibbs runs built to exercise the write-back branch (`isinstance(current_point, np.ndarray)`), `_store_samples`
+    and the assembly in `get_samples()`: a 1-dim hyper-parameter block whose initial point is a python float / int /
+    numpy scalar / 0-d array / list / 1-D array and that does not move for a while (0 transitions configured, or a
+    proposal scale that is always rejected), then moves (or never does); the latent block starts from a list or an array.
+    Tie: kinds of the stored objects and outcome / shapes of get_samples() against Model/C09_shape.lean (driver op `sh`).
+    Oracle: the stored objects hold the post-sweep values, and get_samples() returns them."""
+    from cuqi.distribution import Gaussian, Gamma, JointDistribution
+    from cuqi.experimental.mcmc import HybridGibbs, MH, LinearRTO, Conjugate
+    n = int(rs.randint(2, 4)); m = int(rs.randint(2, 5))
+    Am = rs.randint(-2, 3, size=(m, n)).astype(float); Am[0, 0] = 1.0
+    A = cuqi.model.LinearModel(Am)
+    d = Gamma(2.0, 1.0, name="d"); x = Gaussian(np.zeros(n), lambda d: 1 / d, name="x"); y = Gaussian(A @ x, 1.0, name="y")
+    dens = [d, x, y] if rs.rand() < 0.5 else [x, d, y]
+    with quiet():
+        post = JointDistribution(*dens)(y=rs.randint(-2, 3, size=m).astype(float))
+    # (no python list for the hyper-parameter: the user's own `lambda d: 1 / d` cannot divide by a list)
+    ipk = str(rs.choice(["float", "float", "int", "npfloat", "0d", "arr", "none"]))
+    ip = {"float": 2.0, "int": 2, "npfloat": np.float64(1.5), "0d": np.array(2.0), "list": [2.0], "arr": np.array([2.0]), "none": None}[ipk]
+    no0d = ipk in ("0d",)        # (a 0-d value conditioned into the Gaussian precision is fine; into a GMRF it is not - no GMRF here)
+    still = str(rs.choice(["zero-steps", "zero-steps", "rejected", "always-zero", "moves"]))
+    scale = 1e6 if still == "rejected" else 0.05
+    xk = str(rs.choice(["none", "arr", "list"]))
+    xip = {"none": None, "arr": rs.randint(-2, 3, size=n).astype(float), "list": [float(t) for t in rs.randint(-2, 3, size=n)]}[xk]
+    k1, k2 = int(rs.randint(0, 3)), int(rs.randint(0, 4))
+    desc = {"iface": "HybridGibbs", "shapes": True, "names": list(post.get_parameter_names()), "d_initial_point": ipk, "x_initial_point": xk,
+            "d_behaviour": still, "calls": [f"sample({k1})", f"sample({k2})"], "scenario": idx}
+    K = "HybridGibbs"
+    pts_kinds, stored_kinds, posts = [], [], []
+    with seeded(ctx.seed * 1000003 + idx * 7919 + 4), quiet():
+        smp_x = MH(scale=0.2, initial_point=xip) if xk == "list" else LinearRTO(initial_point=xip)
+        G = HybridGibbs(post, {"d": MH(scale=scale, initial_point=ip), "x": smp_x},
+                        {"d": 0} if still in ("zero-steps", "always-zero") else None)
+        par_names = list(G.par_names)
+        init_kinds = {n_: kind_of(G.current_samples[n_]) for n_ in par_names}
+        orig_store = G._store_samples
+
+        def store():
+            orig_store()
+            pts_kinds.append({n_: kind_of(G.samplers[n_].current_point) for n_ in par_names})
+            stored_kinds.append({n_: kind_of(G.samples[n_][-1]) for n_ in par_names})
+            posts.append({n_: vec(G.samplers[n_].current_point).copy() for n_ in par_names})
+        G._store_samples = store
+        err = None
+        try:
+            G.sample(k1)
+            if still == "zero-steps":
+                G.num_sampling_steps["d"] = 1
+            G.sample(k2)
+        except Exception as e:
+            err = f"{type(e).__name__}: {str(e)[:80]}"
+        gs, gs_err = None, None
+        if err is None:
+            try:
+                gs = G.get_samples()
+            except Exception as e:
+                gs_err = f"{type(e).__name__}: {str(e)[:80]}"
+    ctx.case("hybrid:shapes:" + ipk + ":" + still + (":get_samples-raised" if gs_err else ""), desc)
+    if err is not None:
+        ctx.fail(f"{K}:crash:run", desc, "every block visited in every sweep", "raises " + err, "the run of a well-formed scenario raises")
+        return None
+    # ORACLE: the stored objects are the post-sweep values ...
+    for j, pv in enumerate(posts):
+        for n_ in par_names:
+            if not np.array_equal(vec(G.samples[n_][j]), pv[n_]):
+                ctx.fail(f"{K}:stored", desc, {n_: pv[n_].tolist()}, {n_: vec(G.samples[n_][j]).tolist()}, "the stored sample is not the tuple of values after the sweep")
+                return None
+    # ... and can be retrieved
+    if gs_err is not None:
+        nonarr = sorted({type(v).__name__ for n_ in par_names for v in G.samples[n_] if not isinstance(v, np.ndarray)})
+        ctx.fail(f"{K}:stored:get_samples-raises" + (":scalar-initial-point" if nonarr else ""), desc, f"the {k1 + k2} stored tuples as Samples",
+                 "raises " + gs_err + f" (stored non-array entries: {nonarr})", "get_samples() cannot assemble the stored tuples")
+    else:
+        for n_ in par_names:
+            arr = np.asarray(gs[n_].samples)
+            want = np.array([pv[n_] for pv in posts]).T if posts else None
+            if want is not None and not np.array_equal(arr.reshape(want.shape) if arr.size == want.size else arr, want):
+                ctx.fail(f"{K}:stored", desc, f"{len(posts)} post-sweep tuples", f"shape {arr.shape}", "get_samples() is not the sequence of post-sweep tuples")
+                break
+    if any(v is None for d_ in [init_kinds] + pts_kinds for v in d_.values()):
+        return None
+    gs_shapes = None if gs_err else {n_: "ok:" + "x".join(str(int(k)) for k in np.asarray(gs[n_].samples).shape) for n_ in par_names}
+    line = "sh {} {} {}".format(",".join(par_names), ",".join(init_kinds[n_] for n_ in par_names),
+                                ";".join(",".join(d_[n_] for n_ in par_names) for d_ in pts_kinds) if pts_kinds else "_")
+
+    def after(out):
+        compare_kinds(ctx, K, desc, out, par_names, stored_kinds, gs_err is not None, gs_shapes, stats)
+    return [(line, after)]
+
+
+# ----------------------------------------------------------------------------- legacy strategy parsing
+def run_lstrategy(ctx, cuqi, idx, rs, thorough, stats):
+    """legacy `Gibbs.__init__` / the look-up `self.samplers[par_name]` in `step`: plain keys, tuple keys (1-tuples included), a
+    later key naming a block again (overwrites), keys naming no parameter (ignored), blocks without key (KeyError in the first
+    sweep, after the blocks before it have been advanced) — model `lparse`/`lassigned`/`lsweepChecked` (driver op `ls`)"""
+    import cuqi.sampler as LS
+    tmpl = str(rs.choice(["H", "W", "C", "G", "P"]))
+    with quiet():
+        post, roles = build_joint(cuqi, rs, tmpl)
+    names = list(post.get_parameter_names())
+    pool = [names[i] for i in rs.permutation(len(names))]
+    missing = []
+    if rs.rand() < 0.3:
+        missing = pool[:int(rs.randint(1, len(pool)))] if len(pool) > 1 else []
+        pool = [n for n in pool if n not in missing]
+    keys = []
+    while pool:
+        k = int(rs.randint(1, min(3, len(pool)) + 1))
+        grp, pool = pool[:k], pool[k:]
+        if k == 1 and rs.rand() < 0.7:
+            keys.append(grp[0])
+        else:
+            keys.append(tuple(grp))
+    overlap = False
+    if keys and rs.rand() < 0.35:       # a later key names a block again
+        again = [n for n in names if n not in missing]
+        n_ = again[int(rs.randint(len(again)))]
+        cand = (n_, "q_other") if rs.rand() < 0.3 else ((n_,) if rs.rand() < 0.5 else n_)
+        if cand not in keys:
+            keys.insert(int(rs.randint(1, len(keys) + 1)), cand); overlap = True
+    if rs.rand() < 0.3:
+        keys.insert(int(rs.randint(0, len(keys) + 1)), "q_extra" if rs.rand() < 0.5 else ("q_extra", "q_more"))
+    advanced = []
+
+    class Rec:
+        def __init__(self, fid, target):
+            self.fid, self.target = fid, target
+
+        def step(self, x):
+            pn = list(self.target.get_parameter_names())
+            advanced.append((pn[0] if len(pn) == 1 else "?", self.fid))
+            return np.asarray(x, dtype=float)
+    strat = {k: (lambda target, fid=i: Rec(fid, target)) for i, k in enumerate(keys)}
+    desc = {"iface": "legacy Gibbs", "strategy_keys": [list(k) if isinstance(k, tuple) else k for k in keys], "names": names,
+            "without_key": missing, "scenario": idx}
+    outcome = "ok"
+    try:
+        with quiet():
+            G = LS.Gibbs(post, strat)
+            par_names = list(G.par_names)
+            G.sample(1)
+    except KeyError as e:
+        outcome = "KeyError"
+    except Exception as e:
+        outcome = "crash:" + type(e).__name__ + ": " + str(e)[:80]
+    ctx.case("legacy-strategy:" + ("overlap:" if overlap else "") + outcome.split(":")[0], desc)
+    stats["lstrategy"][outcome.split(":")[0]] = stats["lstrategy"].get(outcome.split(":")[0], 0) + 1
+    K = "Gibbs"
+    foreign = any((k if isinstance(k, str) else "".join(k)).startswith("q_") or (isinstance(k, tuple) and any(m.startswith("q_") for m in k)) for k in keys)
+    if outcome.startswith("crash") or (outcome == "KeyError" and not missing):
+        if foreign or overlap:
+            # a strategy with keys naming no parameter / naming a block twice is not a well-formed assignment: refusing it is not a
+            # failure of the property, only a difference from the model (which transcribes the code: such keys are ignored / overwrite)
+            ctx.disagree(f"{K}:assigned-sampler:outcome", desc, "runs (foreign keys ignored, a later key overwrites)", "raises " + outcome,
+                         "a strategy with foreign / repeated keys is refused")
+        else:
+            ctx.fail(f"{K}:crash:run", desc, "one sweep over all blocks", "raises " + outcome, "a sweep with a sampler assigned to every block raises")
+        return None
+    # ORACLE: every block is drawn by its assigned sampler (keys naming each block once)
+    if not overlap:
+        owner = {}
+        for i, k in enumerate(keys):
+            for n in (k if isinstance(k, tuple) else (k,)):
+                owner[n] = i
+        wrong = [(n, fid) for n, fid in advanced if owner.get(n) != fid]
+        if wrong:
+            ctx.fail(f"{K}:assigned-sampler", desc, {n: owner.get(n) for n, _ in wrong}, dict(wrong), "a block was advanced by a sampler other than the one assigned to it")
+        if outcome == "ok" and [n for n, _ in advanced] != par_names:
+            ctx.fail(f"{K}:steps", desc, par_names, [n for n, _ in advanced], "blocks are not advanced once each in parameter order")
+
+    def kfmt(k):
+        return ("(" + k[0] + ")" if len(k) == 1 else "+".join(k)) if isinstance(k, tuple) else k
+    line = "ls {} {}".format(";".join(f"{kfmt(k)}={i}" for i, k in enumerate(keys)) if keys else "_", ",".join(par_names))
+
+    def after(out):
+        ids_s, _, out_s = out.partition("|")
+        impl_out = f"ok:{len(advanced)}" if outcome == "ok" else f"KeyError:{len(advanced)}:{par_names[len(advanced)] if len(advanced) < len(par_names) else '?'}"
+        if out_s != impl_out:
+            ctx.disagree(f"{K}:assigned-sampler:outcome", desc, out_s, impl_out, "outcome of the first sweep (blocks advanced / KeyError at which block) differs"); return
+        ids = ids_s.split(",")
+        got = {n: str(fid) for n, fid in advanced}
+        bad = [(n, ids[i], got[n]) for i, n in enumerate(par_names) if n in got and ids[i] != got[n]]
+        if bad:
+            ctx.disagree(f"{K}:assigned-sampler", desc, {n: a for n, a, _ in bad}, {n: b for n, _, b in bad}, "the sampler a block is advanced by differs from the model's dictionary look-up")
+    return [(line, after)]
+
 
 # ----------------------------------------------------------------------------- corpus
 def corpus_scalar_initial_point(ctx, cuqi):
@@ -1282,12 +1806,13 @@ def run(ctx):
     thorough = ctx.tier == "thorough"
     n_h = 60 if not thorough else 60 * min(ctx.scale * 2, 25)
     n_l = 40 if not thorough else 40 * min(ctx.scale * 2, 25)
-    stats = {"sampler_hist": {}, "odd_initial_points": {}}
+    stats = {"sampler_hist": {}, "odd_initial_points": {}, "handed_kinds": {}, "tune_intervals": {}, "lstrategy": {}, "get_samples_outcomes": {}}
     ctx.trusted += ["recording proxies of harness/props/c09.py (instance-level wrappers of sampler.step, _store_samples, _get_initial_points; class-level wrapper of JointDistribution._condition, removed after each run)",
                     "JointDistribution.logd of the unconditioned posterior as the reference for the handed targets (C01)"]
     ctx.assumptions += ["block transitions are leaf data: the point after each step() of the real sampler is fed to the model; what the sampler does with its target is the subject of C02/C06/C08/C10",
                         "values are compared exactly (the model only moves values); log-densities with rel+abs tolerance 1e-8 (1e-5 in scenarios with float32 initial points)",
-                        "warm-up tuning calls (step-size adaptation) are not modelled; they do not touch points, targets or storage"]
+                        "the schedule of the warm-up tuning calls is modelled and compared (Model/C09_tune.lean); what sampler.tune does to step sizes is not modelled",
+                        "the structure of the handed targets is compared with Model/C09_target.lean on the model graph read from the user's JointDistribution (name, dim, get_conditioning_variables per density); their values are tied by the numerical oracle only"]
     pending = []
 
     def guarded(fn, K, i, rs):
@@ -1312,6 +1837,15 @@ def run(ctx):
         guarded(run_hybrid, "HybridGibbs", i, np.random.RandomState((ctx.seed * 7919 + i * 104729 + 9) % (2 ** 32)))
     for i in range(n_l):
         guarded(run_legacy, "Gibbs", i, np.random.RandomState((ctx.seed * 7919 + i * 104729 + 5000009) % (2 ** 32)))
+    n_g = 40 if not thorough else 40 * min(ctx.scale * 2, 25)
+    for i in range(n_g):
+        guarded(run_graph, "graph", i, np.random.RandomState((ctx.seed * 7919 + i * 104729 + 7000003) % (2 ** 32)))
+    n_k = 30 if not thorough else 30 * min(ctx.scale * 2, 25)
+    for i in range(n_k):
+        guarded(run_shapes, "HybridGibbs", i, np.random.RandomState((ctx.seed * 7919 + i * 104729 + 11000027) % (2 ** 32)))
+    n_s = 40 if not thorough else 40 * min(ctx.scale * 2, 25)
+    for i in range(n_s):
+        guarded(run_lstrategy, "Gibbs", i, np.random.RandomState((ctx.seed * 7919 + i * 104729 + 9000011) % (2 ** 32)))
     outs = ctx.lean.drive([l for l, _ in pending])
     for (l, cb), out in zip(pending, outs):
         cb(out)
